@@ -38,6 +38,16 @@ static std::vector<cd> vecOf(const mj::Val& st) {
     for (auto& z : st.at("v").a) v.push_back(ringToC(*z));
     return v;
 }
+static std::vector<cd> vecOfNormalised(const mj::Val& st) {
+    auto v = vecOf(st);
+    double n = 0;
+    for (auto& a : v) n += std::norm(a);
+    n = std::sqrt(n);
+    if (n > 0)
+        for (auto& a : v) a /= n;
+    return v;
+}
+static bool g_log = true;
 static std::string keyOf(const mj::Val& st) {
     std::string k = std::to_string(st.at("n").num()) + "|";
     for (auto& m : st.at("m").a) k += (m->num() ? '1' : '0');
@@ -131,6 +141,8 @@ static void applyGate(QasmSimulator& v, const std::string& a, int p, int k, doub
         v.ry(p, theta);
     else if (a == "rz")
         v.rz(p, theta);
+    else if (a == "t")
+        v.rz(p, PI / 4);  // T up to a global phase
     else if (a == "cx")
         v.cx(p, k);
     else
@@ -141,6 +153,8 @@ static std::string expectedLine(const std::string& a, int p, int k, double theta
         return "cx q[" + std::to_string(p) + "],q[" + std::to_string(k) + "];";
     if (a == "rx" || a == "ry" || a == "rz")
         return a + "(" + std::to_string(theta) + ") q[" + std::to_string(p) + "];";
+    if (a == "t")
+        return "rz(" + std::to_string(PI / 4) + ") q[" + std::to_string(p) + "];";
     if (a == "measure")
         return "measure q[" + std::to_string(p) + "] -> c[" + std::to_string(p) + "];";
     if (a == "reset")
@@ -169,6 +183,8 @@ int main(int argc, char** argv) {
     }
     if (argc > 3)
         S.maxViol = std::atoi(argv[3]);
+    if (argc > 4)
+        g_log = std::string(argv[4]) != "nolog";
     std::ifstream in(argv[1]);
     if (!in) {
         std::fprintf(stderr, "cannot open %s\n", argv[1]);
@@ -177,8 +193,35 @@ int main(int argc, char** argv) {
     double curDraw = 0.5;
     bloch::runtime::verif::drawProvider() = [&]() { return curDraw; };
 
-    std::unordered_map<std::string, QasmSimulator> impl;  // spec state key -> implementation object
-    impl.emplace(std::string("0||1,0,0,0,0,;"), QasmSimulator(true));
+    // spec state key -> up to K implementation objects with different recent histories (an object is the
+    // result of real public calls along one path; hidden per-object state such as caches or extra flags can
+    // depend on the path, so one object per node would only ever exercise one history)
+    struct Obj {
+        std::string tag;
+        QasmSimulator sim;
+    };
+    const size_t K = 3;
+    std::unordered_map<std::string, std::vector<Obj>> impl;
+    impl[std::string("0||1,0,0,0,0,;")].push_back({"init", QasmSimulator(g_log)});
+    std::string curTag = "init";
+    auto kindOf = [](const std::string& a) -> std::string {
+        if (a == "measure") return "m";
+        if (a == "reset") return "r";
+        if (a == "rx" || a == "ry" || a == "rz" || a == "t") return "rot";
+        if (a == "alloc") return "a";
+        return "g";
+    };
+    auto reg = [&](const std::string& key, const std::string& act, const QasmSimulator& V) {
+        std::string prev = curTag.substr(curTag.rfind('>') == std::string::npos ? 0 : curTag.rfind('>') + 1);
+        std::string tag = prev + ">" + kindOf(act);
+        auto& vec = impl[key];
+        if (vec.size() >= K)
+            return;
+        for (auto& o : vec)
+            if (o.tag == tag)
+                return;
+        vec.push_back({tag, V});
+    };
     std::deque<std::string> pending;
     std::set<std::string> seenNodes;
     long totalLines = 0;
@@ -198,9 +241,12 @@ int main(int argc, char** argv) {
         auto it = impl.find(ukey);
         if (it == impl.end())
             return false;
-        const QasmSimulator U = it->second;
+        const std::vector<Obj> objs = it->second;
         S.nodes++;
         seenNodes.insert(ukey);
+        for (const Obj& uo : objs) {
+        const QasmSimulator U = uo.sim;
+        curTag = uo.tag;
         // node-level checks: the object registered for this node must match the node
         {
             double err;
@@ -213,6 +259,7 @@ int main(int argc, char** argv) {
         }
         std::map<int, const mj::Val*> p1;                       // q -> exact P1
         std::map<std::pair<int, int>, const mj::Val*> mTo, rTo;  // (q,o) -> post state
+        bool unnorm = false;  // probe model: post states are unnormalised projections
         for (auto& ep : doc->at("succ").a) {
             const mj::Val& e = *ep;
             std::string a = e.at("a").s;
@@ -224,6 +271,8 @@ int main(int argc, char** argv) {
             if (e.has("o")) {
                 int o = (int)e.at("o").num();
                 (a == "measure" ? mTo : rTo)[{p, o}] = &e.at("t");
+                if (e.has("u"))
+                    unnorm = true;
                 continue;
             }
             int k = (int)e.at("k").num();
@@ -280,7 +329,10 @@ int main(int argc, char** argv) {
                          V.stateSize() != (size_t{1} << t.at("n").num()))
                     violation(prop, "flags / register size differ from spec", ukey, act);
                 else {
-                    if (a != "alloc") {
+                    if (!g_log) {
+                        if (V.verifOpCount() != 0)
+                            violation("C05", "operation logged although logging is switched off", ukey, act);
+                    } else if (a != "alloc") {
                         // C05 (simulator half): exactly one log line, after the mutation, right text
                         if (V.verifOpCount() != U.verifOpCount() + 1 ||
                             lastLine(V.getQasm()) != expectedLine(a, p, k, theta))
@@ -289,7 +341,7 @@ int main(int argc, char** argv) {
                     } else if (V.verifOpCount() != U.verifOpCount())
                         violation("C05", "allocation wrote to the op log", ukey, act);
                     if (first)
-                        impl.emplace(keyOf(t), V);
+                        reg(keyOf(t), a, V);
                 }
                 first = false;
                 S.edges[a]++;
@@ -299,6 +351,16 @@ int main(int argc, char** argv) {
                 S.samples.push_back("{\"state\":" + mj::esc(ukey) + ",\"action\":" + mj::esc(act) + "}");
         }
         int n = (int)s.at("n").num();
+        if (mTo.empty() && rTo.empty())
+            n = 0;  // probe model below full width: no measure/reset probes dumped for this node
+        auto gridFor = [&](int q) {
+            // 16 midpoints when P1 is dyadic (exact frequency), 128 otherwise
+            const mj::Val& pr = *p1.at(q);
+            int G = pr[1].num() == 0 ? 16 : 128;
+            std::vector<double> g;
+            for (int j = 0; j < G; ++j) g.push_back((2 * j + 1) / (2.0 * G));
+            return g;
+        };
         // ---- measure: Born rule on the draw grid + collapse to the normalised projection ----
         for (int q = 0; q < n; ++q) {
             if (s.at("m")[q].num() != 0)
@@ -324,17 +386,18 @@ int main(int argc, char** argv) {
                     return;
                 }
                 double err;
-                if (!sameUpToPhase(V.verifState(), vecOf(*f->second), err))
+                if (!sameUpToPhase(V.verifState(), unnorm ? vecOfNormalised(*f->second) : vecOf(*f->second), err))
                     violation("C02", "collapsed state is not the normalised projection (err=" +
                                          std::to_string(err) + ", outcome " + std::to_string(o) + ")",
                               ukey, act);
                 else if (!flagsMatch(V, *f->second))
                     violation("C06", "measure did not set exactly the measured flag", ukey, act);
                 else {
-                    if (V.verifOpCount() != U.verifOpCount() + 1 ||
-                        lastLine(V.getQasm()) != expectedLine("measure", q, 0, 0))
+                    if (g_log && (V.verifOpCount() != U.verifOpCount() + 1 ||
+                        lastLine(V.getQasm()) != expectedLine("measure", q, 0, 0)))
                         violation("C05", "measure log line missing or wrong", ukey, act);
-                    impl.emplace(keyOf(*f->second), V);
+                    if (!unnorm)
+                        reg(keyOf(*f->second), "measure", V);
                     // immediate re-read is impossible (flag set); repeatability is checked through
                     // the registered object: its P1 is 0/1 by the spec node it matches.
                 }
@@ -342,15 +405,17 @@ int main(int argc, char** argv) {
                 if (count && o == 1)
                     ++ones;
             };
-            for (double r : mids) runOne(r, true);
+            auto grid = gridFor(q);
+            double G = (double)grid.size();
+            for (double r : grid) runOne(r, true);
             for (double r : extra) runOne(r, false);
-            // frequency on the 16 midpoints equals P1 = (x + y*sqrt2)/2^k
+            // frequency on the midpoints equals P1 = (x + y*sqrt2)/2^k (exactly when P1 is a multiple of 1/G)
             const mj::Val& pr = *p1.at(q);
             double P1 = ((double)pr[0].num() + (double)pr[1].num() * std::sqrt(2.0)) /
                         std::pow(2.0, (double)pr[2].num());
-            if (std::abs(ones / 16.0 - P1) > 1.0 / 32 + 1e-12)
+            if (std::abs(ones / G - P1) > 0.5 / G + 1e-12)
                 violation("C02", "frequency of outcome 1 over the draw grid is " + std::to_string(ones) +
-                                     "/16 but P1=" + std::to_string(P1), ukey, act);
+                                     "/" + std::to_string((int)G) + " but P1=" + std::to_string(P1), ukey, act);
             for (auto& kv : mTo)
                 if (kv.first.first == q && !hit.count(kv.first.second))
                     violation("C02", "possible outcome " + std::to_string(kv.first.second) +
@@ -363,6 +428,8 @@ int main(int argc, char** argv) {
             std::string act = "reset(" + std::to_string(q) + ")";
             auto rhoPre = reduced(U.verifState(), q);
             std::vector<cd> rhoAvg(rhoPre.size());
+            auto grid = gridFor(q);
+            double G = (double)grid.size();
             bool ok = true;
             std::set<std::string> posts;
             auto runOne = [&](double r, bool count) {
@@ -395,17 +462,18 @@ int main(int argc, char** argv) {
                 for (int q2 = 0; q2 < n; ++q2)
                     if (q2 != q && V.verifMeasured()[q2] != U.verifMeasured()[q2])
                         violation("C06", "reset changed another qubit's flag", ukey, act);
-                if (V.verifOpCount() != U.verifOpCount() + 1 ||
-                    lastLine(V.getQasm()) != expectedLine("reset", q, 0, 0))
+                if (g_log && (V.verifOpCount() != U.verifOpCount() + 1 ||
+                    lastLine(V.getQasm()) != expectedLine("reset", q, 0, 0)))
                     violation("C05", "reset log line missing or wrong", ukey, act);
                 // which spec post-state is it?
                 bool member = false;
                 for (int o = 0; o < 2; ++o) {
                     auto f = rTo.find({q, o});
                     double err;
-                    if (f != rTo.end() && sameUpToPhase(v, vecOf(*f->second), err)) {
+                    if (f != rTo.end() && sameUpToPhase(v, unnorm ? vecOfNormalised(*f->second) : vecOf(*f->second), err)) {
                         member = true;
-                        impl.emplace(keyOf(*f->second), V);
+                        if (!unnorm)
+                            reg(keyOf(*f->second), "reset", V);
                         posts.insert(keyOf(*f->second));
                         break;
                     }
@@ -414,10 +482,10 @@ int main(int argc, char** argv) {
                     S.nonStandardReset++;
                 if (count) {
                     auto rr = reduced(v, q);
-                    for (size_t i = 0; i < rr.size(); ++i) rhoAvg[i] += rr[i] / 16.0;
+                    for (size_t i = 0; i < rr.size(); ++i) rhoAvg[i] += rr[i] / G;
                 }
             };
-            for (double r : mids) runOne(r, true);
+            for (double r : grid) runOne(r, true);
             for (double r : extra) runOne(r, false);
             if (ok) {
                 double worst = 0;
@@ -425,13 +493,14 @@ int main(int argc, char** argv) {
                 // exact on the grid whenever P1 is a multiple of 1/16; allow one grid cell otherwise
                 const mj::Val& pr = *p1.at(q);
                 bool dyadic = pr[1].num() == 0;
-                if (worst > (dyadic ? 1e-9 : 1.0 / 16))
+                if (worst > (dyadic ? 1e-9 : 1.0 / G))
                     violation("C04", "reset changed the reduced state of the other qubits (max entry diff " +
                                          std::to_string(worst) + ")", ukey, act);
             }
             S.edges["reset"] += (long)posts.size();
             S.edgesTotal += (long)posts.size();
         }
+        }  // objects of this node
         return true;
     };
 
